@@ -39,6 +39,8 @@ fn lib_menu() -> Vec<&'static str> {
         "30 REM note  ",
         "40 DATA \"ab  ",
         "20 PRINT \"t\"\t ",
+        "20 PRINT ((((1 + \"A\"))))",
+        "30 IF 0 THEN PRINT (((((((((1 + \"A\")))))))))",
     ]
 }
 
@@ -55,7 +57,16 @@ fn observe(mut s: Sess) -> Result<(Vec<String>, Vec<String>, abasic_core::verif:
     }
     let mut t: Vec<String> = s.recs.iter().map(|r| format!("{:?}", r)).collect();
     t.push(format!("{:?}", end));
-    Ok((list, t, s.it.verif_snapshot()))
+    let snap = s.it.verif_snapshot();
+    // state the snapshot does not render (the nesting budget) shows in a deeply nested line
+    if s.state() == abasic_core::InterpreterState::Idle {
+        s.recs.clear();
+        let deep = format!("PRINT {}1{}", "(".repeat(60), ")".repeat(60));
+        let mut none = std::iter::empty();
+        let e = s.run_line(&deep, &mut none, 10);
+        t.push(format!("deep probe: {:?} {:?}", e, s.printed()));
+    }
+    Ok((list, t, snap))
 }
 
 fn check_file(text: &str) -> Option<(String, String)> {
@@ -113,6 +124,8 @@ fn cli_programs() -> Vec<CliProg> {
         CliProg { name: "out of order and redefined", text: "30 PRINT \"c\"\n10 PRINT \"a\"\n20 PRINT \"x\"\n20 PRINT \"b\";V\n", replies: "", analysis_error: false },
         CliProg { name: "CRLF endings", text: "10 PRINT \"r\";R\r\n20 PRINT \"s\"\r\n", replies: "", analysis_error: false },
         CliProg { name: "leading blanks and extreme numbers", text: "  5 PRINT \"five\";F\n0 PRINT \"zero\"\n18446744073709551615 PRINT \"max\"\n", replies: "", analysis_error: false },
+        CliProg { name: "output ends without a newline", text: "10 X = 3\n20 PRINT \"abc\";X;\n", replies: "", analysis_error: false },
+        CliProg { name: "last statements print nothing", text: "10 PRINT \"a\"\n20 Y = 1\n30 Y = Y + W\n", replies: "", analysis_error: false },
         CliProg { name: "long unbroken output", text: "10 FOR I = 1 TO 120: PRINT \"xyz\";: NEXT I\n20 PRINT L\n", replies: "", analysis_error: false },
     ]
 }
